@@ -177,8 +177,9 @@ class Sess:
 
     def start(self):
         self.agent.start()
+        kw = {"user": self.user_obj} if getattr(self, "user_obj", None) is not None else {}
         self.drv = driver.Driver(self.cfg, self.agent, timeout=self.timeout, allow_bulk=self.allow_bulk,
-                                 max_repetitions=self.max_rep).create()
+                                 max_repetitions=self.max_rep, **kw).create()
 
     def stop(self):
         self.agent.stop()
@@ -307,8 +308,13 @@ class Sess:
         ops = list(self.k.get("ops", ["get", "get_many", "getnext", "getbulk", "fetch", "refresh", "bad_oid", "oversize"]))
         if self.drv.s is None:
             return
+        forced = getattr(self, "force_next", None)
+        self.force_next = None
         if not getattr(self, "opened", False):
             op = "open"
+            forced = None
+        elif forced:
+            op = forced[0]
         else:
             op = rng.choice(ops)
         if op == "refresh" and not v3:
@@ -355,10 +361,16 @@ class Sess:
             base = self.root[:rng.randrange(3, len(self.root) + 1)] if rng.random() < 0.8 else M.gen_oid(rng, 2, 6)
             if keys and rng.random() < 0.2:
                 base = rng.choice(keys)[:-1]
+            if forced:
+                base = forced[1]
             bulk = op == "getbulk" or (op == "fetch" and self.allow_bulk and cfg.version != "v1")
             m = None
             if op == "getbulk":
                 m = rng.choice([None, 1, 2, 127, 128, 255, 256, 65535, 2 ** 31 - 1, rng.randrange(1, 2 ** 31)])
+            if forced:
+                m = forced[2]
+            # sometimes the caller abandons the walk after one or two items (break) and walks the same base again
+            self.abandon = (not forced) and self.beh != "drop" and rng.random() < self.k.get("abandon_prob", 0.12)
             mr = (m or self.max_rep) if bulk else 0
             e = {"tag": B.PDU_GETBULK if bulk else B.PDU_GETNEXT, "a": 0, "b": mr, "oids": [base]}
             self.exp, self.walk = dict(e), {"base": base, "exp": e}
@@ -382,7 +394,14 @@ class Sess:
         if not expect_sent:
             self.exp = None
         call_op = {"open": "open"}.get(op, op)
-        out = self.drv.call(call_op, *args, limit=5000)
+        lim = 5000
+        if self.walk is not None and getattr(self, "abandon", False) and self.op in ("getnext", "getbulk", "fetch"):
+            lim = rng.choice([1, 2])
+            self.force_next = (self.op, self.walk["base"], m)
+        out = self.drv.call(call_op, *args, limit=lim)
+        if lim < 5000 and out[0] == "ok" and out[1] and out[1][-1] == "LIMIT":
+            # abandoned on purpose: the model's "next expected datagram" and the full result do not apply
+            self.exp, self.want = None, None
         if not expect_sent:
             time.sleep(0.003)
         with RES_LOCK:
@@ -460,6 +479,11 @@ class Sess:
             self.step_bad.append(("outcome", "%s%s with a compliant agent raised %s: %s" % (
                 self.op, repr(args)[:80], out[1]["cls"], out[1]["msg"][:160]), None))
         res["requests"] += len(self.step_reqs)
+        if len(res["samples"]) < 4 and self.step_reqs and res["calls"] % 37 == 5:
+            r0 = self.step_reqs[0]
+            res["samples"].append({"cfg": cfg.key(), "call": "%s%s" % (self.op, repr(args)[:120]), "agent_behaviour": self.beh,
+                                   "outcome": repr(out)[:120], "datagrams_seen": len(self.step_reqs), "first_datagram": r0.raw.hex()[:160],
+                                   "mac_ok": r0.mac_ok, "decrypt_ok": r0.decrypt_ok, "model_disagreements": [a for a, _, _ in self.step_bad]})
         for r in self.step_reqs:
             if r.m and r.version == 3:
                 u = r.m["usm"]
@@ -503,6 +527,10 @@ def gen_cfg(rng, knobs):
         pass
     pw = bytes(rng.randrange(33, 127) for _ in range(rng.choice([8, 9, 12, 31])))
     pw2 = bytes(rng.randrange(33, 127) for _ in range(rng.choice([8, 10, 16])))
+    if knobs.get("shared_pw"):
+        # every session of this process uses the same pass phrases (with whatever digest it draws):
+        # a key derived for one digest must never be reused for another
+        pw, pw2 = knobs["shared_pw"].encode(), (knobs["shared_pw"] + "P").encode()
     return rigp.Cfg("v3", user=user, auth=auth, priv=priv, auth_kt=akt, priv_kt=pkt, auth_pw=pw, priv_pw=pw2,
                     engine_given=eg, client=cl, empty_engine=(not eg and rng.random() < 0.3))
 
@@ -514,13 +542,27 @@ def worker(job):
     knobs = job.get("knobs", {})
     aspects = set(job.get("aspects") or [])
     res = {"calls": 0, "requests": 0, "ops": {}, "bad": [], "geom": set(), "sizes": set(), "other_aspects": {}, "harness": [],
-           "cfgs": [], "inconclusive": []}
+           "cfgs": [], "inconclusive": [], "samples": []}
     nsess = knobs.get("sessions", 4)
     sessions = []
+    shared_users = {}
     for i in range(nsess):
         cfg = gen_cfg(rng, knobs)
+        if res["cfgs"] and cfg.version == "v3" and rng.random() < knobs.get("clone_cfg_prob", 0.25):
+            # the same credentials (and, below, the very same User object) used against another agent
+            prev = [s.cfg for s in sessions if s.cfg.version == "v3" and s.cfg.auth_kt != "localized" and s.cfg.priv_kt != "localized"]
+            if prev:
+                d = rng.choice(prev).to_json()
+                d["client"], d["engine_given"] = cfg.client, rng.random() < 0.3
+                d["empty_engine"] = False
+                cfg = rigp.Cfg.from_json(d)
         # make_user for localized keys needs the engine id -> Sess creates agent first
         s = Sess(i, cfg, random.Random(rng.random()), knobs)
+        if cfg.version == "v3" and cfg.auth_kt != "localized" and cfg.priv_kt != "localized":
+            key = repr(sorted((k, v) for k, v in cfg.to_json().items() if k in ("user", "auth", "priv", "auth_kt", "priv_kt", "auth_pw", "priv_pw")))
+            if key not in shared_users:
+                shared_users[key] = rigp.make_user(cfg, s.engine_id)
+            s.user_obj = shared_users[key]
         s.start()
         sessions.append(s)
         res["cfgs"].append(cfg.key())
